@@ -55,14 +55,16 @@ def scripts(tier):
 def shards(tier):
     sh = [(scen, i) for scen in ('fresh', 'resumed') for i in range(len(scripts(tier)))]
     sh += [('tied', i) for i, sc in enumerate(scripts(tier)) if 'q' in sc and 'h' not in sc]
-    return sh + [('subprocess', 0)] + ST.shards()
+    return sh + [('subprocess', 0)] + ST.shards() + ST.line_shards(tier)
 
 
 def bounds(tier):
     return {'preemption_bound_completed': 2 if tier == 'quick' else '3 (2 for scripts with a help request)', 'scripts': scripts(tier),
             'scenarios': ['fresh session', 'session resumed inside a Markov level (status request can see the placeholder item)',
                           'fresh session on a ruleset whose two Markov levels are tied in one pre-terminal (scripts with a quit)'],
-            'ruleset': 'D1(2 groups) / M (2 levels of 3 strings) / D2: 5 pre-terminals, 10 guesses', **ST.bounds(tier)}
+            'ruleset': 'D1(2 groups) / M (2 levels of 3 strings) / D2: 5 pre-terminals, 10 guesses', **ST.bounds(tier),
+            'line_layer': {'delivery': 'at every line boundary of the generating thread inside lib_guesser (about 1 000 and 2 400 per fresh run, the same again for the resumed run)', 'scripts': ST.LINE_SCRIPTS[:1] if tier == 'quick' else ST.LINE_SCRIPTS,
+                           'sessions': ['fresh', 'resumed'], 'rulesets': 2}}
 
 
 def boundaries(events, n_prefix=0):
@@ -182,6 +184,8 @@ def run_subprocess(acc):
 def run_shard(shard, tier, acc):
     if shard[0] == 'status':
         return ST.run(shard, tier, acc)
+    if shard[0] == 'lines':
+        return ST.run_lines(shard, tier, acc)
     scen, si = shard
     if scen == 'subprocess':
         return run_subprocess(acc)
@@ -315,7 +319,7 @@ def run_shard(shard, tier, acc):
 
 
 def replay(case):
-    if case.get('layer') == 'status':
+    if case.get('layer') in ('status', 'lines'):
         return ST.replay(case)
     if case['scenario'] == 'subprocess':
         from ..runner import Acc
